@@ -864,7 +864,9 @@ def translate(repo):
     failures = {}
     try:
         try:
-            pynorm.check_package(repo); pynorm.check_bindings(tree)           # every name the translator reads by its spelling means what it says
+            pynorm.check_package(repo)
+            tree = pynorm.housekeeping(tree, "tlv")      # inert statements dropped, annotations of unchanged signatures restored
+            pynorm.check_bindings(tree)           # every name the translator reads by its spelling means what it says
         except pynorm.Binding as e:
             raise Unsupported(f"tlv: {e}")
         tree = pynorm.normalise_light(tree)       # module constants, chained comparisons, conditional expressions
